@@ -1,10 +1,14 @@
 package witness
 
-// Replay for Proof.Unmarshal's round-trip obligation (C11.u) on the REAL code: a list of G_k hashes is written
-// with the real Marshal and read back with the real Unmarshal.  Injected with `go test -overlay`.
+// Replay for the Proof.Marshal / Proof.Unmarshal obligations (C11.m, C11.u and their invariants) on the REAL code:
+// lists of k hashes (the model's G_k first, then 0..64) are written with the real Marshal and read back with the
+// real Unmarshal -- into a fresh receiver and into a receiver that already holds another proof (the contract speaks
+// about *p after the call, whatever it held before) -- and Marshal's output is compared with the line encoding.
+// Injected with `go test -overlay`.
 
 import (
 	"bytes"
+	"encoding/base64"
 	"encoding/json"
 	"fmt"
 	"os"
@@ -23,25 +27,59 @@ func TestVerifReplayProof(t *testing.T) {
 	if m.K < 0 || m.K > 64 {
 		m.K = 3
 	}
-	var written Proof
-	for i := 0; i < m.K; i++ {
-		written = append(written, bytes.Repeat([]byte{byte(i + 1)}, 1+i%64))
-	}
-	enc := written.Marshal()
-	var back Proof
-	err := back.Unmarshal([]byte(enc))
 	failed := map[string]string{}
-	if err != nil {
-		failed["C11.u"] = fmt.Sprintf("Unmarshal(Marshal(list of %d hashes)) = %q is refused: %v", m.K, enc, err)
-	} else if len(back) != len(written) {
-		failed["C11.u"] = fmt.Sprintf("read back %d hashes, wrote %d", len(back), len(written))
-	} else {
-		for i := range back {
-			if !bytes.Equal(back[i], written[i]) {
-				failed["C11.u"] = fmt.Sprintf("hash %d differs", i)
+	fail := func(tag, why string) {
+		if _, dup := failed[tag]; !dup {
+			failed[tag] = why
+		}
+	}
+	ks := []int{m.K}
+	for k := 0; k <= 64; k++ {
+		ks = append(ks, k)
+	}
+	var lastEnc string
+	for _, k := range ks {
+		var written Proof
+		want := ""
+		for i := 0; i < k; i++ {
+			h := bytes.Repeat([]byte{byte(0xf7 + i)}, 1+(i*5)%64)
+			written = append(written, h)
+			want += base64.StdEncoding.EncodeToString(h) + "\n"
+		}
+		enc := written.Marshal()
+		lastEnc = enc
+		if enc != want {
+			fail("C11.m", fmt.Sprintf("Marshal(list of %d hashes) = %q, want %q", k, enc, want))
+		}
+		for _, pre := range []string{"fresh receiver", "receiver holding 3 other hashes"} {
+			var back Proof
+			if pre != "fresh receiver" {
+				back = Proof{[]byte("a"), []byte("b"), []byte("c")}
+			}
+			err := back.Unmarshal([]byte(want))
+			switch {
+			case err != nil:
+				fail("C11.u", fmt.Sprintf("%s: Unmarshal(encoding of %d hashes = %q) is refused: %v", pre, k, want, err))
+			case len(back) != len(written):
+				fail("C11.u", fmt.Sprintf("%s: read back %d hashes, wrote %d", pre, len(back), len(written)))
+			default:
+				for i := range back {
+					if !bytes.Equal(back[i], written[i]) {
+						fail("C11.u", fmt.Sprintf("%s: hash %d of %d differs", pre, i, k))
+					}
+				}
 			}
 		}
 	}
-	js, _ := json.Marshal(map[string]interface{}{"realisable": true, "k": m.K, "encoding": enc, "failed_clauses": failed})
+	// refusals leave nothing half-read
+	for _, bad := range []string{"AAAA", "AAAA\n!!!!\n", "AAAA\nAAA\n"} {
+		p := Proof{[]byte("kept")}
+		if err := p.Unmarshal([]byte(bad)); err == nil {
+			fail("C11.refuse", fmt.Sprintf("malformed proof text %q accepted as %d hashes", bad, len(p)))
+		} else if len(p) != 1 || string(p[0]) != "kept" {
+			fail("C11.r", fmt.Sprintf("malformed proof text %q refused (%v) but the receiver was changed to %d hashes", bad, err, len(p)))
+		}
+	}
+	js, _ := json.Marshal(map[string]interface{}{"realisable": true, "k": m.K, "encoding": lastEnc, "failed_clauses": failed})
 	t.Logf("REPLAY-RESULT %s", js)
 }
